@@ -53,6 +53,31 @@ CHECKS = {
    "run through the real tokenizer's f-string mode machine and the parser; tokens and trees of each path witness are compared with CPython 3.12. Known f-string defects are "
    "keyed by feature sets computed from CPython's own token stream.",
    TRUST + "CPython as opaque per-path oracle", SYM + "; CPython differential per path"),
+ "C12": ("model_checking", "§2 C12",
+   "Product execution of both entry points on the same symbolic file content: the loaded parse_string and the loaded parse_file run on a model of text-mode open() (explicit "
+   "encoding or a SYMBOLIC locale encoding in {utf-8, ascii}; universal-newline translation; readline); every disagreement is replayed with a real file in child interpreters "
+   "under LC_ALL=C, LC_ALL=C + UTF-8 mode and C.utf8; a witness sample is pushed through all three environments.",
+   TRUST + "the open() model (symx/filemodel.py); Latin-1 locale not installed", SYM + " with a symbolic locale encoding; child-interpreter replay"),
+ "C13": ("model_checking", "§2 C13",
+   "One-step frame condition on every path of symbolic explorations (strings up to length 2/3, seeds with a symbolic character incl. macros, path literals, f-strings, failing "
+   "inputs): a fingerprint of everything reachable from module/class globals of peg_parser.* is unchanged, a probe parse is unaffected, earlier trees are unaltered. Histories "
+   "and an 8-thread pool are replayed concretely (sampled; interleavings are not explored symbolically).",
+   TRUST + "no shared write => schedule independence; lru_cache of _compile exempt", SYM + "; frame-condition (inductive step over histories)"),
+ "C16": ("translation_validation", "§2 C16",
+   "Both generation steps are re-run from the working tree into a scratch directory; each shipped rule method is compared with its regenerated counterpart as normalised AST and "
+   "by symbolic co-execution with uninterpreted sub-rules (solver-chosen truthiness of every sub-rule result; traces and action terms must coincide on every path); keyword tables "
+   "and decorators compared; generation repeated under 4 PYTHONHASHSEED settings (sampled).",
+   "trusts: z3, the recording mock of the parser runtime; loops in hand-written-style generated code are unrolled up to 40 trace events", "per-rule symbolic co-execution (z3 Bool per sub-rule result) + normalised-AST translation validation"),
+ "C17": ("model_checking", "§2 C17",
+   "For each grammar of a pool (every operator in nesting positions up to depth 2, direct/indirect left recursion, memo flags, helper sharing, plus seeded random grammars) a parser "
+   "is generated by the working tree's generator and run on symbolic token strings (all lengths up to 4/5 over 5 token kinds) together with an independent PEG interpreter on the same "
+   "proxies; success, end position and action value must agree on every joint path. Grammars are sampled; inputs are solver-decided.",
+   TRUST + "reference PEG interpreter (symx/pegref.py); indirect left recursion only when entered through the leader", SYM + "; differential against an independent PEG interpreter"),
+ "C18": ("other", "§2 C18",
+   "Sufficient condition for linearity on 47 size-parameterised families at sizes s,2s,4s: one token of the stream is symbolic (innermost position or appended), the solver "
+   "partitions the alphabet into the classes the parser distinguishes (valid and invalid variants), and for every class W(4s)-W(2s) <= 2.5 (W(2s)-W(s)) + c where W counts "
+   "Tokenizer getnext/peek/reset. Growth beyond the largest size is an extrapolation and not claimed.",
+   TRUST + "work counter = token-source operations", SYM + " with a counting token source; growth inequality per path class"),
  "C14": ("model_checking", "§2 C14",
    "Three-way product execution: parse(A), parse(B), parse(A+B) on shared solver variables (A = statement form with one symbolic character or a symbolic token row; B = statement "
    "form or symbolic token row); on every joint path where A and B are complete sequences body(A+B) must be body(A) ++ line-shifted body(B).",
